@@ -90,3 +90,38 @@ func MapKeys[M ~map[K]V, K comparable, V any](m M, site string) []K {
 	}
 	return res
 }
+
+// onceState is the modelled state of one sync.Once.
+type onceState struct {
+	mu   sync.Mutex
+	done bool
+}
+
+// OnceDo is sync.Once.Do with the exclusion handled by a modelled lock: concurrent callers park (and can be
+// scheduled, detected as deadlocked, ...) instead of blocking on the Once's own mutex, which the simulator
+// cannot see.  f runs at most once per Once; callers return only after it has finished.
+func OnceDo(o *sync.Once, f func(), site string) {
+	s := cur
+	if s == nil {
+		o.Do(f)
+		return
+	}
+	var st *onceState
+	Crit(func() {
+		if s.onces == nil {
+			s.onces = map[*sync.Once]*onceState{}
+		}
+		st = s.onces[o]
+		if st == nil {
+			st = &onceState{}
+			s.onces[o] = st
+		}
+	})
+	Lock(&st.mu, site)
+	defer Unlock(&st.mu, site)
+	if st.done {
+		return
+	}
+	defer func() { st.done = true }()
+	f()
+}
